@@ -12,6 +12,16 @@ pub struct BytesD<'a>(#[serde(with = "crate::types::bytes_as_bytes")] pub &'a [u
 pub trait Same {
     fn same(&self, o: &Self) -> bool;
 }
+impl Same for () {
+    fn same(&self, _o: &Self) -> bool {
+        true
+    }
+}
+impl Same for u8 {
+    fn same(&self, o: &Self) -> bool {
+        self == o
+    }
+}
 impl Same for u16 {
     fn same(&self, o: &Self) -> bool {
         self == o
